@@ -289,6 +289,13 @@ def fam_cond_aux():
                         framers = [dict(name="m", schedule="active", frames=frames), aux_framer_ext("x", kind)]
                         yield ("condaux/%s/d%d/go%s->%s/%s" % (kind, d, s, t, pos),
                                dict(tick=0.125, inits=list(ENV_INITS), framers=framers), dict(depth=d, main=names[d]))
+                        if d >= 1 and kind in ("repeat1", "never", "repeat2"):
+                            # the same program with the frames DECLARED under-first (f3, f2 in f1, f1 in f0, f0): heads and
+                            # outlines must not depend on declaration order
+                            fm = dict(name="m", schedule="active", frames=list(reversed(frames)), first="f0")
+                            yield ("condaux/%s/d%d/go%s->%s/%s/declared-under-first" % (kind, d, s, t, pos),
+                                   dict(tick=0.125, inits=list(ENV_INITS), framers=[fm, aux_framer_ext("x", kind)]),
+                                   dict(depth=d, main=names[d]))
 
 
 def fam_cond_aux_fork():
@@ -943,3 +950,36 @@ def fam_guarded_start():
                         w = dict(name="w", schedule=wsched, frames=[dict(name="w0", items=w0), dict(name="w1", over="w0", items=w1)])
                         yield ("guarded-start/%s-%s/%s/%s/%s" % (first, second, wsched, decl, gpos),
                                dict(tick=0.125, inits=list(ENV_INITS), framers=[m, w] if decl == "mw" else [w, m]), dict(parents=None))
+
+
+def fam_cond_two_plain():
+    """chain f0 > f1 > f2 (+ f3): two conditional auxiliaries x (e0) and y (e1) on the SAME frame d, in both clause
+    orders, every kind pair; a PLAIN auxiliary z (never done, recorders on enter/exit/recur) on a frame below d: z must
+    not run while either conditional auxiliary is still running, and must run once per tick otherwise."""
+    names = ["f0", "f1", "f2", "f3"]
+    parents = (None, 0, 1, None)
+    ctxs = ("enter", "exit", "recur")
+    for kx in ("now", "repeat1", "repeat2", "never"):
+        for ky in ("repeat1", "repeat2", "never"):
+            for d in (0, 1):
+                for zat in range(d + 1, 3):
+                    for order in ("xy", "yx"):
+                        frames = []
+                        for i, nm in enumerate(names):
+                            items = recs(nm, ctxs)
+                            if i == d:
+                                here = [("auxif", "x", [E0]), ("auxif", "y", [E1])]
+                                if order == "yx":
+                                    here.reverse()
+                                items += here
+                            if i == zat:
+                                items.append(("aux", "z"))
+                            if i == 0:
+                                items.append(("go", "f3", [E0, E1]))
+                            if i == 3:
+                                items.append(("go", "f0", [E1]))
+                            frames.append(dict(name=nm, over=names[parents[i]] if parents[i] is not None else None, items=items))
+                        yield ("condaux2-plain/%s-%s/d%d-z%d-%s" % (kx, ky, d, zat, order),
+                               dict(tick=0.125, inits=list(ENV_INITS),
+                                    framers=[dict(name="m", schedule="active", frames=frames), aux_framer_ext("x", kx),
+                                             aux_framer_ext("y", ky), aux_framer("z", "never")]), dict())
